@@ -37,6 +37,13 @@ func (c *CriteriaSplitCondition) SplitCriteriaByOrdering(sortedCriteria *model.C
 	} else if pivot > c.Max {
 		pivot = c.Max
 	}
+	// an earlier bias may have left fewer criteria than 'min' asks for
+	if pivot > criteriaCount {
+		pivot = criteriaCount
+	}
+	if pivot < 0 {
+		pivot = 0
+	}
 	left := (*sortedCriteria)[0:pivot]
 	right := (*sortedCriteria)[pivot:]
 	return &CriteriaPartition{
